@@ -69,10 +69,12 @@ class VcFile:
         self.types = {}
         self.skips = {}
         self.raws = []  # (mod, text, origin)
+        self.protofields = []
 
 
-def parse_vc(path, into=None):
+def parse_vc(path, into=None, features=()):
     vc = into or VcFile()
+    features = set(features)
     cur = None          # current object
     sec = None          # (kind, arg)
     buf = []
@@ -85,6 +87,15 @@ def parse_vc(path, into=None):
             return
         text = '\n'.join(buf).rstrip('\n')
         kind, arg = sec
+        # feature guard: `closure 0 @miniwasm:` / `hint start @!miniwasm:`
+        mg = re.search(r'\s@(!?)(\w+)\s*$', arg)
+        if mg:
+            arg = arg[:mg.start()]
+            active = (mg.group(2) in features) != (mg.group(1) == '!')
+            if not active:
+                buf = []
+                sec = None
+                return
         if isinstance(cur, FnContract):
             if kind == 'requires':
                 cur.requires = text
@@ -117,6 +128,13 @@ def parse_vc(path, into=None):
                 cur.carves[arg.strip()] = text
         elif isinstance(cur, tuple) and cur[0] == 'raw':
             vc.raws.append((cur[1], text, cur[2]))
+        elif isinstance(cur, tuple) and cur[0] == 'protofields':
+            exp = {}
+            for l in text.split('\n'):
+                if ':' in l:
+                    k, v = l.split(':', 1)
+                    exp[k.strip()] = v.strip()
+            vc.protofields.append({'mod': cur[1], 'name': cur[2], 'prop': cur[3], 'origin': cur[4], 'fields': exp})
         elif isinstance(cur, TypeOpts):
             if kind == 'body':
                 cur.extra = text
@@ -143,13 +161,17 @@ def parse_vc(path, into=None):
             elif kind == 'raw':
                 cur = ('raw', parts[1], origin)
                 sec = ('raw', '')
+            elif kind == 'protofields':
+                # expected #[prost(..)] attribute per field (ground obligations, one per field)
+                cur = ('protofields', parts[1], parts[2], parts[3] if len(parts) > 3 else 'C19', origin)
+                sec = ('protofields', '')
             else:
                 raise SystemExit(f'{origin}: unknown header {kind}')
             continue
         if line.startswith('# ') or line == '#' or (line.startswith('#') and sec is None):
             continue
         m = SECTION_RE.match(line) if (line and not line[0].isspace()) else None
-        if m and not (isinstance(cur, tuple) and cur[0] == 'raw'):
+        if m and not (isinstance(cur, tuple) and cur[0] in ('raw', 'protofields')):
             flush()
             kind, arg, rest = m.group(1), m.group(2), m.group(3)
             if kind == 'ret':
